@@ -8,7 +8,8 @@ LEVEL = "exploration"
 RULE = (
     "(generic file/poll back-end) real Tuner + real TrialBackend/LocalBackend poll, status and slicing logic over harness-written "
     "std.out files: per poll every live script flushes 0..4 further tagged reports (order across trials is a tape choice), the exit "
-    "becomes visible in the same or a later poll, further lines may be written between the last poll and the kill, resumed scripts "
+    "becomes visible in the same or a later poll (in a third of the runs a script may also write lines or exit at the very moment its "
+    "status is read), further lines may be written between the last poll and the kill, resumed scripts "
     "continue after the checkpoint or restart from level 1, scripts may fail; decisions come from a tape-driven scheduler (any "
     "sequence of CONTINUE / STOP / PAUSE and resume suggestions) or from real schedulers (stopping / promotion Hyperband, median "
     "rule, synchronous Hyperband, PBT). (simulator) real Tuner + UserBlackboxBackend with table elapsed times below and above the "
@@ -155,8 +156,11 @@ def case_decisions(t):
     cont = t.bool()
     script_fn = make_script_fn(t, max_t_fn, cont, fail_rate=8 if t.bool() else 0)
     crit = StoppingCriterion(max_num_trials_started=max_trials + 2, max_num_evaluations=60)
-    run = ds.run_scripted(t, sched, script_fn, n_workers, crit, allow_late_lines=True, max_failures=100)
+    race = t.chance(1, 3)
+    run = ds.run_scripted(t, sched, script_fn, n_workers, crit, allow_late_lines=True, max_failures=100, poll_race=race)
     labels = {"decisions", "continue-from-checkpoint" if cont else "restart-from-scratch"}
+    if any(e.get("during_status_read") for e in run.rec.of("script.exit")):
+        labels.add("exit-during-status-read")
     if run.exception is not None and not run.loop_guard:
         e = run.exception
         raise Violation(f"run-raises:{type(e).__name__}", f"{type(e).__name__}: {e}")
@@ -206,8 +210,11 @@ def case_schedulers(t):
     cont = t.bool()
     script_fn = make_script_fn(t, max_t_fn, cont)
     crit = StoppingCriterion(max_num_trials_started=t.int(2, 8), max_num_evaluations=80)
-    run = ds.run_scripted(t, sched, script_fn, n_workers, crit, allow_late_lines=True, max_failures=100)
+    race = t.chance(1, 3)
+    run = ds.run_scripted(t, sched, script_fn, n_workers, crit, allow_late_lines=True, max_failures=100, poll_race=race)
     labels = {spec.family, "continue-from-checkpoint" if cont else "restart-from-scratch"}
+    if any(e.get("during_status_read") for e in run.rec.of("script.exit")):
+        labels.add("exit-during-status-read")
     if run.exception is not None and not run.loop_guard:
         e = run.exception
         import traceback
@@ -300,7 +307,7 @@ SUBCHECKS = {
         "fn": case_decisions,
         "quick": 12000,
         "thorough": 250000,
-        "required": ["mid-batch-decision", "resume-after-late-lines", "completion-seen-after-last-result", "decision-pause", "decision-stop"],
+        "required": ["exit-during-status-read", "mid-batch-decision", "resume-after-late-lines", "completion-seen-after-last-result", "decision-pause", "decision-stop"],
     },
     "scripted-schedulers": {"fn": case_schedulers, "quick": 6000, "thorough": 120000, "required": ["resume", "mid-batch-decision"]},
     "sim": {"fn": case_sim, "quick": 8000, "thorough": 150000, "required": ["resume", "decision-before-last-report"]},
